@@ -281,6 +281,21 @@ Theorem c10_artifact_guard_confined_to_store_refuted :
 Proof. exact as_built_guard_escapes_store. Qed.
 Print Assumptions c10_artifact_guard_confined_to_store_refuted.
 
+(* ... while an id that is ONE plain name (not empty, no separator, not "." / ".." - every id rip draws itself) resolves
+   to the entry of that name IN the blobs directory: under the guard `plain id && is_file` (the repair proposed for
+   S30) an accepted id is a blob of the store, for every id and file system *)
+Theorem c10_plain_artifact_id_confined_to_store : forall f base id,
+  guard_plain f base id = true ->
+  exists q c, resolve f base [46] = WAt q Dir /\ resolve f base id = WAt (q ++ [id]) (File c)
+              /\ read_back f base id = Some c.
+Proof. exact guard_plain_confined. Qed.
+Print Assumptions c10_plain_artifact_id_confined_to_store.
+
+Example c10_demo_plain_guard :
+  guard_plain w_fs w_base [46; 46; 47; 120] = false /\ guard_plain w_fs w_base [107] = true
+  /\ guard_plain w_fs w_base [] = false /\ guard_plain w_fs w_base [46] = false /\ guard_plain w_fs w_base [115] = false.
+Proof. exact guard_plain_examples. Qed.
+
 Example c10_demo_artifact_guard :
   guard_sound GNonEmptyIsFile = true
   /\ w_handoff GNonEmptyIsFile [107]
